@@ -136,76 +136,115 @@ theorem derTotalLen_encTLV (c : Bytes) (h : c.length < 2 ^ 32) : derTotalLen (en
 
 /-! ### the loop over `derLoad` -/
 
-/-- outcome of the loader on exactly the element (no `ExtraData` possible) as a Python result -/
-def loadExact {γ : Type} (syn : Bytes → Bool) (body : Bytes → Option γ) (el : Bytes) : PyRes γ :=
-  if syn el then (match body el with | some c => .ok c | none => .error .spsdk) else .error .spsdk
+/-- outcome of the loader on exactly the element as a Python result -/
+def loadExact {γ : Type} (syn : Bytes → SynRes) (body : Bytes → Option γ) (el : Bytes) : PyRes γ :=
+  match syn el with
+  | .ok => (match body el with | some c => .ok c | none => .error .spsdk)
+  | _ => .error .spsdk
 
-theorem loadExact_err {γ : Type} (syn : Bytes → Bool) (body : Bytes → Option γ) (el : Bytes) (e : PyErr)
-    (h : loadExact syn body el = .error e) : e = .spsdk := by
-  unfold loadExact at h
-  split at h
-  · split at h
-    · cases h
-    · cases h; rfl
-  · cases h; rfl
-
-theorem derLoad_exact {γ : Type} (syn : Bytes → Bool) (body : Bytes → Option γ) (el : Bytes)
+theorem derLoad_exact {γ : Type} (syn : Bytes → SynRes) (body : Bytes → Option γ) (el : Bytes)
     (hn : derTotalLen el = some el.length) :
-    derLoad syn body el = (match loadExact syn body el with | .ok c => .ok c | .error _ => .fail) := by
-  unfold derLoad loadExact
+    derLoad syn body el =
+      (match syn el with
+       | .bad => .fail
+       | .extra => .extraData
+       | .ok => (match body el with | some c => .ok c | none => .fail)) := by
+  unfold derLoad
   rw [hn]
   simp only [Nat.lt_irrefl, if_false, List.take_length]
-  cases syn el with
-  | false => simp
-  | true =>
-    simp only [Bool.not_true, Bool.false_eq_true, if_false, if_true]
-    cases body el <;> rfl
+  cases syn el <;> rfl
 
-theorem derLoad_longer {γ : Type} (syn : Bytes → Bool) (body : Bytes → Option γ) (el t : Bytes) (b : UInt8)
+theorem derLoad_longer {γ : Type} (syn : Bytes → SynRes) (body : Bytes → Option γ) (el t : Bytes) (b : UInt8)
     (hn : derTotalLen el = some el.length) :
-    derLoad syn body (el ++ (t ++ [b])) = if syn el then .extraData else .fail := by
+    derLoad syn body (el ++ (t ++ [b])) = (match syn el with | .bad => .fail | _ => .extraData) := by
   unfold derLoad
   rw [derTotalLen_append el _ _ hn]
   have h1 : ¬ (el ++ (t ++ [b])).length < el.length := by rw [List.length_append]; omega
   have h2 : el.length < (el ++ (t ++ [b])).length := by
     rw [List.length_append, List.length_append, List.length_singleton]; omega
   simp only [h1, if_false, List.take_left', h2, if_true]
-  cases syn el <;> simp
+  cases syn el <;> rfl
+
+/-- an element cut short is a plain failure (never `ExtraData`) -/
+theorem derLoad_short {γ : Type} (syn : Bytes → SynRes) (body : Bytes → Option γ) (p : Bytes) (b : UInt8)
+    (hn : derTotalLen (p ++ [b]) = some (p ++ [b]).length) : derLoad syn body p = .fail := by
+  unfold derLoad
+  cases hp : derTotalLen p with
+  | none => rfl
+  | some m =>
+    have := derTotalLen_append p [b] m hp
+    rw [hn] at this
+    simp only [Option.some.injEq, List.length_append, List.length_singleton] at this
+    have hlt : p.length < m := by omega
+    simp [hlt]
+
+/-- an `ExtraData` error raised inside the element: the loop may eat zero bytes of the element itself, but the outcome is an error -/
+theorem certLoadDerF_syn_extra {γ : Type} (syn : Bytes → SynRes) (body : Bytes → Option γ) (el : Bytes)
+    (hn : derTotalLen el = some el.length) (hs : syn el = .extra) (tail : Bytes) (fuel : Nat) :
+    certLoadDerF (derLoad syn body) fuel (el ++ tail) = .error .spsdk := by
+  induction fuel generalizing tail with
+  | zero =>
+    unfold certLoadDerF
+    rcases List.eq_nil_or_concat tail with rfl | ⟨t, b, rfl⟩
+    · rw [List.append_nil, derLoad_exact syn body el hn, hs]; simp only; split <;> rfl
+    · rw [List.concat_eq_append, derLoad_longer syn body el t b hn, hs]; simp only; split <;> rfl
+  | succ f ih =>
+    unfold certLoadDerF
+    rcases List.eq_nil_or_concat tail with rfl | ⟨t, b, rfl⟩
+    · rw [List.append_nil, derLoad_exact syn body el hn, hs]
+      simp only
+      split
+      · rcases List.eq_nil_or_concat el with rfl | ⟨p, b, rfl⟩
+        · simp [derTotalLen] at hn
+        · rw [List.concat_eq_append] at hn ⊢
+          rw [List.dropLast_concat]
+          unfold certLoadDerF
+          rw [derLoad_short syn body p b hn]
+      · rfl
+    · rw [List.concat_eq_append, derLoad_longer syn body el t b hn, hs]
+      simp only
+      split
+      · rw [← List.append_assoc, List.dropLast_concat]; exact ih t
+      · rfl
 
 /-- MAIN LEMMA: the retry loop on `element ++ tail` — the tail is removed iff it consists of zero bytes only, and then the
     answer is the loader's answer on exactly the element; whatever bytes the element itself ends with. -/
-theorem certLoadDerF_derLoad {γ : Type} (syn : Bytes → Bool) (body : Bytes → Option γ) (el : Bytes)
+theorem certLoadDerF_derLoad {γ : Type} (syn : Bytes → SynRes) (body : Bytes → Option γ) (el : Bytes)
     (hn : derTotalLen el = some el.length) (tail : Bytes) (fuel : Nat) (hf : tail.length ≤ fuel) :
     certLoadDerF (derLoad syn body) fuel (el ++ tail) =
       if tail.all (· == 0) then loadExact syn body el else .error .spsdk := by
-  induction fuel generalizing tail with
-  | zero =>
-    have : tail = [] := List.eq_nil_of_length_eq_zero (by omega)
-    subst this
+  cases hs : syn el with
+  | extra =>
+    rw [certLoadDerF_syn_extra syn body el hn hs]
+    unfold loadExact; rw [hs]; simp
+  | bad =>
+    have hl : loadExact syn body el = .error .spsdk := by unfold loadExact; rw [hs]
+    rw [hl]
     unfold certLoadDerF
-    rw [List.append_nil, derLoad_exact syn body el hn]
-    simp only [List.all_nil, if_true]
-    cases h : loadExact syn body el with
-    | ok c => rfl
-    | error e => rw [loadExact_err syn body el e h]
-  | succ f ih =>
     rcases List.eq_nil_or_concat tail with rfl | ⟨t, b, rfl⟩
-    · unfold certLoadDerF
-      rw [List.append_nil, derLoad_exact syn body el hn]
-      simp only [List.all_nil, if_true]
-      cases h : loadExact syn body el with
-      | ok c => rfl
-      | error e => rw [loadExact_err syn body el e h]
-    · rw [List.concat_eq_append] at hf ⊢
+    · rw [List.append_nil, derLoad_exact syn body el hn, hs]; simp
+    · rw [List.concat_eq_append, derLoad_longer syn body el t b hn, hs]; simp
+  | ok =>
+    have hl : loadExact syn body el = (match body el with | some c => .ok c | none => .error .spsdk) := by
+      unfold loadExact; rw [hs]
+    induction fuel generalizing tail with
+    | zero =>
+      have : tail = [] := List.eq_nil_of_length_eq_zero (by omega)
+      subst this
       unfold certLoadDerF
-      rw [derLoad_longer syn body el t b hn]
-      cases hs : syn el with
-      | false =>
-        simp only [Bool.false_eq_true, if_false]
-        unfold loadExact
-        simp [hs]
-      | true =>
-        simp only [if_true]
+      rw [List.append_nil, derLoad_exact syn body el hn, hs, hl]
+      simp only [List.all_nil, if_true]
+      cases body el <;> rfl
+    | succ f ih =>
+      rcases List.eq_nil_or_concat tail with rfl | ⟨t, b, rfl⟩
+      · unfold certLoadDerF
+        rw [List.append_nil, derLoad_exact syn body el hn, hs, hl]
+        simp only [List.all_nil, if_true]
+        cases body el <;> rfl
+      · rw [List.concat_eq_append] at hf ⊢
+        unfold certLoadDerF
+        rw [derLoad_longer syn body el t b hn, hs]
+        simp only
         rw [← List.append_assoc, List.getLast?_concat, List.dropLast_concat]
         rw [List.length_append, List.length_singleton] at hf
         by_cases hb : b = 0
